@@ -3,6 +3,7 @@ package main
 import (
 	"fmt"
 	"math/rand"
+	"runtime"
 	"sync/atomic"
 
 	"github.com/iotaledger/hive.go/runtime/workerpool"
@@ -62,6 +63,9 @@ func (n *gnode) under(m *gnode) bool {
 // has an accepted, unfinished task (all tasks are gated by the harness, one
 // gate is opened per step, every step ends at structural quiescence).
 func runGroup(cfg groupCfg) (res groupResult) {
+	if cfg.Idx%2 == 1 {
+		return runGroupConcurrent(cfg)
+	}
 	res.Cfg = cfg
 	rng := rand.New(rand.NewSource(cfg.Seed*1000003 + int64(cfg.Idx)))
 	step := func(f string, a ...any) { res.Steps = append(res.Steps, fmt.Sprintf(f, a...)) }
@@ -229,6 +233,303 @@ func runGroup(cfg groupCfg) (res groupResult) {
 		if st := do(sd, p.pool.ShutdownComplete.Wait); st != gdump.Returned {
 			gs := gdump.Snapshot()
 			viol("group/pool-shutdown-hangs", "after Group.Shutdown() pool %s never completes its shutdown (%s)", p.name, patternOf(gs, nil))
+			return
+		}
+	}
+	return
+}
+
+// runGroupConcurrent: groups and pools are created (CreateGroup / CreatePool)
+// concurrently with goroutines that look them up by name (Group(name) /
+// Pool(name), spinning until present) and submit a gated task immediately.
+// Afterwards the step-wise oracle of runGroup applies on every level:
+// WaitChildren / WaitParents parked iff something below is pending, group
+// counters never negative and zero iff nothing below is pending, Shutdown of
+// the tree terminates.
+//
+// Schedule search (affects which interleavings are tried, never a verdict):
+// half of the lookers fire their Submit when the process' goroutine count
+// shows that the pool's Start has spawned its last worker, after a seeded
+// number of spin iterations - this scans the instants right after Start.
+func runGroupConcurrent(cfg groupCfg) (res groupResult) {
+	res.Cfg = cfg
+	rng := rand.New(rand.NewSource(cfg.Seed*1000003 + int64(cfg.Idx)))
+	step := func(f string, a ...any) { res.Steps = append(res.Steps, fmt.Sprintf(f, a...)) }
+	viol := func(fp, f string, a ...any) {
+		res.Findings = append(res.Findings, finding{fp, fmt.Sprintf(f, a...)})
+	}
+	curGate.Store(nil)
+
+	type gplan struct {
+		name   string
+		parent int // index into groups, -1 = root
+		path   []string
+		g      atomic.Pointer[workerpool.Group]
+	}
+	type pplan struct {
+		name    string
+		group   int // index into groups, -1 = root
+		workers int
+		task    *grTask
+		pool    atomic.Pointer[workerpool.WorkerPool]
+		precise bool
+		delay   int
+		target  int
+		done    atomic.Bool
+	}
+	root := workerpool.NewGroup("root")
+	nG := rng.Intn(4)
+	groups := make([]*gplan, nG)
+	for i := range groups {
+		par := rng.Intn(i+1) - 1
+		gp := &gplan{name: fmt.Sprintf("g%d", i+1), parent: par}
+		if par >= 0 {
+			gp.path = append(append([]string{}, groups[par].path...), gp.name)
+		} else {
+			gp.path = []string{gp.name}
+		}
+		groups[i] = gp
+	}
+	nP := 2 + rng.Intn(4)
+	pools := make([]*pplan, nP)
+	for i := range pools {
+		pools[i] = &pplan{name: fmt.Sprintf("p%d", i), group: rng.Intn(nG+1) - 1, workers: []int{1, 2, 4, 8, 16}[rng.Intn(5)],
+			task: &grTask{pool: i, spawn: -1, gate: make(chan struct{})}, precise: rng.Intn(2) == 0, delay: rng.Intn(400)}
+	}
+	for _, g := range groups {
+		res.Tree += fmt.Sprintf("%s(parent=%d) ", g.name, g.parent)
+	}
+	for _, p := range pools {
+		res.Tree += fmt.Sprintf("%s(group=%d workers=%d precise=%v) ", p.name, p.group, p.workers, p.precise)
+	}
+	groupOf := func(i int) *workerpool.Group {
+		if i < 0 {
+			return root
+		}
+		return groups[i].g.Load()
+	}
+	// waiters are created before the goroutine count is taken
+	type waiter struct {
+		node   int // -1 root
+		a      *gdump.Actor
+		issued bool
+		via    string
+	}
+	ws := []*waiter{{node: -1, a: gdump.NewActor("wait-root"), via: "WaitChildren"}}
+	for i := range groups {
+		ws = append(ws, &waiter{node: i, a: gdump.NewActor("wait-" + groups[i].name), via: "WaitChildren"})
+	}
+	if nG > 0 {
+		ws = append(ws, &waiter{node: -1, a: gdump.NewActor("waitparents"), via: "WaitParents"})
+	}
+	sd := gdump.NewActor("group-shutdown")
+	defer func() {
+		for _, w := range ws {
+			w.a.Close()
+		}
+		sd.Close()
+	}()
+
+	barrier, hold := make(chan struct{}), make(chan struct{})
+	body := func(t *grTask) func() {
+		return func() {
+			t.runs.Add(1)
+			<-t.gate
+			t.finished.Store(true)
+		}
+	}
+	for _, p := range pools {
+		p := p
+		go func() {
+			<-barrier
+			// look the group chain and the pool up by name
+			g := root
+			if p.group >= 0 {
+				for _, name := range groups[p.group].path {
+					for {
+						if sub, ok := g.Group(name); ok {
+							g = sub
+							break
+						}
+						runtime.Gosched()
+					}
+				}
+			}
+			var pool *workerpool.WorkerPool
+			for {
+				if x, ok := g.Pool(p.name); ok {
+					pool = x
+					break
+				}
+				runtime.Gosched()
+			}
+			if p.precise {
+				for k := 0; runtime.NumGoroutine() < p.target && k < 1<<21; k++ {
+					if k&63 == 63 {
+						runtime.Gosched()
+					}
+				}
+				for k := 0; k < p.delay; k++ {
+					_ = tick.Load()
+				}
+			}
+			for {
+				pool.Submit(body(p.task))
+				if pool.PendingTasksCounter.Get() > 0 || p.task.runs.Load() > 0 {
+					break // accepted (this looker is the only submitter of the pool)
+				}
+				runtime.Gosched()
+			}
+			p.task.submitted.Store(true)
+			p.done.Store(true)
+			<-hold // keep the goroutine count stable
+		}()
+	}
+	creatorDone := make(chan struct{})
+	go func() {
+		<-barrier
+		for _, gp := range groups {
+			gp.g.Store(groupOf(gp.parent).CreateGroup(gp.name))
+			runtime.Gosched()
+		}
+		for _, p := range pools {
+			p.pool.Store(groupOf(p.group).CreatePool(p.name, workerpool.WithWorkerCount(p.workers)))
+			if p.delay&1 == 0 {
+				runtime.Gosched()
+			}
+		}
+		close(creatorDone)
+		<-hold
+	}()
+	waitQuiescent()
+	base := runtime.NumGoroutine()
+	for i, p := range pools {
+		p.target = base + p.workers + 1
+		for _, q := range pools[:i] {
+			p.target += q.workers + 1
+		}
+	}
+	close(barrier)
+	waitQuiescent()
+	defer close(hold)
+	select {
+	case <-creatorDone:
+	default:
+		viol("group/create-never-returns", "CreateGroup/CreatePool is parked for ever while other goroutines look the children up and submit")
+		return
+	}
+	for _, p := range pools {
+		if !p.done.Load() {
+			viol("group/lookup-or-submit-never-returns", "a goroutine that looks pool %s up by name and submits is parked for ever", p.name)
+			return
+		}
+	}
+	step("%d groups and %d pools created concurrently with %d lookers; every looker's task accepted", nG, nP, nP)
+
+	under := func(pg, node int) bool { // is group index pg (-1 root) inside node
+		for x := pg; ; x = groups[x].parent {
+			if x == node {
+				return true
+			}
+			if x < 0 {
+				return false
+			}
+		}
+	}
+	pending := func(node int) (k int) {
+		for _, p := range pools {
+			if p.task.submitted.Load() && !p.task.finished.Load() && (node == -1 || under(p.group, node)) {
+				k++
+			}
+		}
+		return
+	}
+	name := func(node int) string {
+		if node < 0 {
+			return "root"
+		}
+		return groups[node].name
+	}
+	call := func(w *waiter) func() {
+		if w.via == "WaitChildren" {
+			return groupOf(w.node).WaitChildren
+		}
+		return groups[nG-1].g.Load().WaitParents
+	}
+	check := func(at string) {
+		waitQuiescent()
+		for node := -1; node < nG; node++ {
+			cnt := groupOf(node).PendingChildrenCounter.Get()
+			p := pending(node)
+			res.Checks++
+			if cnt < 0 {
+				viol("group/counter-negative", "PendingChildrenCounter of group %s is %d at quiescence (%s)", name(node), cnt, at)
+			} else if (cnt == 0) != (p == 0) {
+				viol("group/counter-disagrees-with-pending", "PendingChildrenCounter of group %s is %d at quiescence (%s) while %d task(s) below the group are accepted and unfinished", name(node), cnt, at, p)
+			}
+		}
+		for _, w := range ws {
+			p := pending(w.node)
+			res.Checks++
+			if w.issued {
+				if w.a.Busy() {
+					res.Parked++
+					if p == 0 {
+						viol("group/wait-parked-although-idle", "%s(%s) is parked at quiescence (%s) although no pool below the group has a pending task", w.via, name(w.node), at)
+					}
+					continue
+				}
+				res.Returned++
+				w.issued = false
+				if p > 0 {
+					viol("group/wait-returned-while-pool-pending", "%s(%s) returned (%s) while %d task(s) below the group are accepted and unfinished", w.via, name(w.node), at, p)
+				}
+			}
+			st := do(w.a, call(w))
+			w.issued = st == gdump.Blocked
+			if st == gdump.Blocked {
+				res.Parked++
+				if p == 0 {
+					viol("group/wait-parked-although-idle", "%s(%s) called at quiescence (%s) with no pending task below the group does not return", w.via, name(w.node), at)
+				}
+			} else {
+				res.Returned++
+				if p > 0 {
+					viol("group/wait-returned-while-pool-pending", "%s(%s) called (%s) while %d task(s) below the group are accepted and unfinished returned immediately: the pool was found by name and used before the group tracked it", w.via, name(w.node), at, p)
+				}
+			}
+		}
+	}
+	check("after concurrent creation and submission")
+	for _, i := range rng.Perm(nP) {
+		if len(res.Findings) > 0 {
+			break
+		}
+		close(pools[i].task.gate)
+		check(fmt.Sprintf("gate of the task in %s opened", pools[i].name))
+	}
+	if len(res.Findings) > 0 {
+		for _, p := range pools { // let everything drain
+			select {
+			case <-p.task.gate:
+			default:
+				close(p.task.gate)
+			}
+		}
+		return
+	}
+	for _, p := range pools {
+		if p.task.runs.Load() != 1 {
+			viol("group/task-not-run-exactly-once", "the task of pool %s ran %d times", p.name, p.task.runs.Load())
+		}
+	}
+	if st := do(sd, root.Shutdown); st != gdump.Returned {
+		viol("group/shutdown-never-returns", "Group.Shutdown() of an idle tree is parked for ever")
+		return
+	}
+	for _, p := range pools {
+		if st := do(sd, p.pool.Load().ShutdownComplete.Wait); st != gdump.Returned {
+			viol("group/pool-shutdown-hangs", "after Group.Shutdown() pool %s never completes its shutdown (%s)", p.name, patternOf(gdump.Snapshot(), nil))
 			return
 		}
 	}
